@@ -320,9 +320,9 @@ func TestC15(t *testing.T) {
 		if p.MissingIndex && (cfg.Encryption != "" || cfg.Signature != "") && rapid.IntRange(0, 2).Draw(t, "wrongkey") == 0 {
 			p.WrongKey = true
 		}
-		gp := hist.NewGen(t, fsWeights, hist.Universe, 4, cfg.RecordSize)
+		gp := hist.NewGen(t, fsWeights, hist.Universe, 4, cfg.RecordSize).WithSuffixNames(t, cfg)
 		gp.Avoid = f33Avoid(cfg, avoidFor("C15"))
-		gr := hist.NewGen(t, c15Weights, hist.Universe, 4, cfg.RecordSize)
+		gr := hist.NewGen(t, c15Weights, hist.Universe, 4, cfg.RecordSize).WithSuffixNames(t, cfg)
 		gr.Comps = gp.Comps
 		gr.Avoid = f33Avoid(cfg, c15Avoid)
 		if guard("F-33") && cfg.Compression == "parallelbzip2" && cfg.Encryption == "pgp" {
